@@ -123,7 +123,8 @@ Lemma acceptability_tables :
   (forall d, codes_acceptable d = false <-> exists c, d = DStatus c /\ grpc_failure_code c = true) /\
   (* gRPC server: the same, plus a plain context.DeadlineExceeded and a breaker error from below *)
   (forall d, server_acceptable d = false <->
-     d = DCtxDeadline \/ d = DBreakerUnavailable \/ exists c, d = DStatus c /\ grpc_failure_code c = true) /\
+     d = DCtxDeadline \/ d = DBreakerUnavailable \/ d = DWrappedDeadline \/ d = DWrappedBreakerUnavailable \/
+     exists c, d = DStatus c /\ grpc_failure_code c = true) /\
   (* redis: nil, redis.Nil, context.Canceled (also wrapped) are fine, everything else fails *)
   (forall d, redis_acceptable d = true <->
      d = DNil \/ d = DRedisNil \/ d = DWrappedRedisNil \/ d = DCtxCanceled \/ d = DWrappedCanceled) /\
@@ -131,6 +132,7 @@ Lemma acceptability_tables :
      WithAcceptable option accepts; for the Query* methods also a failure to scan the rows *)
   (forall d, sql_acceptable d = true <->
      d = DNil \/ d = DSqlNoRows \/ d = DSqlTxDone \/ d = DCtxCanceled \/ d = DWrappedCanceled \/ d = DSqlAcceptable \/
+     d = DWrappedSqlNoRows \/ d = DWrappedSqlTxDone \/
      exists i n, d = DSqlCustom i n /\ 1 <= i <= n) /\
   (forall d, sqlq_acceptable d = true <-> d = DSqlScanFail \/ sql_acceptable d = true) /\
   (* REST: Accept iff the status seen by the deferred function is below 500; a handler that
@@ -141,15 +143,15 @@ Proof.
   - destruct d; cbn; try discriminate. intros H. exists code. split; [reflexivity|].
     destruct (grpc_failure_code code); [reflexivity|discriminate].
   - intros (c & -> & H). cbn. rewrite H. reflexivity.
-  - destruct d; cbn; try discriminate; auto. intros H. right. right. exists code. split; [reflexivity|].
+  - destruct d; cbn; try discriminate; auto 6. intros H. do 4 right. exists code. split; [reflexivity|].
     destruct (grpc_failure_code code); [reflexivity|discriminate].
-  - intros [->|[->|(c & -> & H)]]; cbn; try reflexivity. rewrite H. reflexivity.
+  - intros [->|[->|[->|[->|(c & -> & H)]]]]; cbn; try reflexivity. rewrite H. reflexivity.
   - destruct d; cbn; try discriminate; tauto.
   - intros [->|[->|[->|[->| ->]]]]; reflexivity.
-  - destruct d; cbn; try discriminate; try tauto.
+  - destruct d; cbn; try discriminate; try tauto; auto 10.
     intros H. apply andb_true_iff in H. destruct H as (H1 & H2). apply Z.leb_le in H1. apply Z.leb_le in H2.
     repeat right. exists i, n. auto.
-  - intros [->|[->|[->|[->|[->|[->|(i & n & -> & H1 & H2)]]]]]]; try reflexivity.
+  - intros [->|[->|[->|[->|[->|[->|[->|[->|(i & n & -> & H1 & H2)]]]]]]]]; try reflexivity.
     cbn. apply andb_true_iff. split; apply Z.leb_le; assumption.
   - destruct d; cbn; auto.
   - intros [->|H]; [reflexivity|]. destruct d; cbn in *; auto.
